@@ -144,6 +144,17 @@ Theorem C03_duplicates : forall r, run = Ok r -> forall k n,
   (In (NDup true k n) (a_notes r) <-> n = kcount eqb k kl /\ 1 < n).
 Proof. exact (compare_duplicates eqb veq keyname eqb_eq flt chk merge ref l10n). Qed.
 
+(* when merging, an entity is skipped at most once, however many error-level
+   findings the checker yields for it (entities are told apart by c_id); every
+   skipped entity is the last localized entity of some key; nothing is skipped
+   without a merge file *)
+Theorem C03_skips_once : forall r,
+  NoDup (map c_id l10n) -> run = Ok r ->
+  NoDup (a_skips r) /\
+  (forall id, In id (a_skips r) ->
+     merge = true /\ exists k e, last_ent l10n k e /\ c_id e = id).
+Proof. exact (compare_skips eqb veq keyname eqb_eq flt chk merge ref l10n). Qed.
+
 (* the comparison raises only through Junk.equals: a reference Junk whose
    generated key is also a key of the localization and is not a key binding *)
 Theorem C03_no_raise :
@@ -252,6 +263,26 @@ Example C03_example_filter :
   | Raise _ => False
   end.
 Proof. vm_compute. split; reflexivity. Qed.
+
+(* three findings, two of them errors, for the shared entity b (id 1000): it is
+   skipped once; all three findings are notified *)
+Example C03_example_skip_once :
+  let chk := fun (a b : @cent pykey Z) =>
+               if (c_id b =? 1000)%Z
+               then [mkfinding true 1%Z; mkfinding false 2%Z; mkfinding true 3%Z] else [] in
+  NoDup (map c_id ex_l10n) /\
+  match compare pykey_eqb Z.eqb py_keyname (fun _ => VError) chk true ex_ref ex_l10n,
+        compare pykey_eqb Z.eqb py_keyname (fun _ => VError) chk false ex_ref ex_l10n with
+  | Ok r, Ok r' =>
+      a_skips r = [1000%Z; 1004%Z] /\ a_skips r' = [] /\
+      filter (fun n => match n with NCheck _ _ => true | _ => false end) (a_notes r) =
+        [NCheck true 1%Z; NCheck false 2%Z; NCheck true 3%Z]
+  | _, _ => False
+  end.
+Proof.
+  split; [repeat constructor; cbn; intuition discriminate|].
+  vm_compute. repeat split; reflexivity.
+Qed.
 
 Example C03_example_add_file :
   add_file VError ex_ref = Some (5, 12) /\ add_file VIgnore ex_ref = None.
